@@ -62,6 +62,8 @@ def gen_cases(tier, seed):
         if r < 0.75:
             case["y0"] = "rand"
             case["y0_scale"] = float(10.0 ** rng.uniform(-2, 6))
+        # history: solve again on the same solver object (second solve from zero multipliers)
+        case["resolve"] = bool(rng.random() < 0.3)
         cases.append(case)
     return cases
 
@@ -77,6 +79,26 @@ def run_case(case):
     if out.solver is None or not out.trace.trials:
         return res
     viol, stats = work.check_penalty(p, out)
+    if case.get("resolve") and out.result is not None:
+        # the same solver object is used again; every solve must satisfy the property on its own
+        import numpy as np
+
+        out2 = mon.Outcome()
+        out2.solver = out.solver
+        out2.result = out2.exc = out2.construct_exc = None
+        try:
+            out2.result = out.solver.solve(p.x0, np.zeros(p.spec.m))
+        except Exception as ex:
+            out2.exc = ex
+        out2.trace = out.solver.trace
+        v2, s2 = work.check_penalty(p, out2)
+        for v in v2:
+            v["what"] = "second solve on the same solver object: " + v["what"]
+            v["key"]["history"] = "resolve"
+        viol += v2
+        res["ctr"]["resolves_checked"] = 1
+        for k in ("trials", "penalty_increases", "penalty_updates_seen", "vetoes"):
+            stats[k] += s2[k]
     for nm, nr in _contract_state["fails"][:1]:
         viol.append({"what": "%s.update returned next_rho=%r (not positive or below the initial penalty)" % (nm, nr),
                      "key": {"kind": "contract-update", "penalty": p.cfg["penalty"]}})
@@ -100,9 +122,9 @@ def finalize(agg, tier):
     return {
         "rule": "QP/NLP/degenerate/infeasible/unbounded specs x six penalty policies (35% extra weight on DualNorm) x "
                 "controllers x Newton types x scalings x initial penalty 1e-8..10 x starting multipliers of norm 0 and "
-                "1e-2..1e6; non-trivial = the penalty was raised at least once during the run; distinct by spec seed",
+                "1e-2..1e6; 30% of the cases solve a second time on the same solver object (zero starting multipliers) and judge both solves; non-trivial = the penalty was raised at least once during the run; distinct by spec seed",
         "floors": {"trials": 10000, "penalty_increases": 200, "dualnorm_increases": 100, "contract_evaluations": 2000,
-                   "penalty_Constant": 30, "vetoes": 50},
+                   "penalty_Constant": 30, "vetoes": 50, "resolves_checked": 50},
         "assumptions": ["the icontract postcondition records (never raises) so that it cannot perturb a solve; zero "
                         "evaluations would make the run inconclusive"],
     }
